@@ -446,6 +446,13 @@ fn main() {
             cmp::<OnlyA>(&format!("{{\"a\":1,\"zz\":{}}}", txt), "struct OnlyA{a:i32}", false);
             cmp::<OnlyA>(&format!("{{\"zz\":{},\"a\":1}}", txt), "struct OnlyA{a:i32}", false);
         }
+        // the four enum shapes, externally tagged; a struct variant in both encodings
+        #[derive(serde::Deserialize, PartialEq, Debug)] enum En { U, N(i32), T(i32, bool), S { a: i32, b: String } }
+        for txt in ["\"U\"", "{\"U\":null}", "{\"N\":1}", "{\"T\":[1,true]}", "{\"S\":{\"a\":7,\"b\":\"x\"}}", "{\"S\":[7,\"x\"]}", "{ \"S\" : [ 7 , \"x\" ] }",
+                    "{\"S\":[7]}", "{\"S\":[7,\"x\",1]}", "{\"T\":{\"0\":1}}", "{\"T\":[1]}", "{\"N\":[1]}", "{\"U\":1}", "{\"S\":7}", "{\"S\":[7,\"x\"],\"N\":1}", "{\"S\":[7,\"x\"]", "\"S\"", "{\"X\":1}", "[\"U\"]"] {
+            cmp::<En>(txt, "enum En{U,N(i32),T(i32,bool),S{a,b}}", false);
+            cmp::<Vec<En>>(&format!("[{txt},\"U\"]"), "Vec<enum En>", false);
+        }
         // map keys are quoted numbers / bools: whitespace, signs, leading zeros, fractions inside the quotes
         let inner = ["1", " 1", "1 ", "\\t1", "-1", "- 1", "01", "0", "-0", "1.0", "1e2", "", "+1", "true", " true", "true ", "false", "tru", "1\"", "\\u0031", "18446744073709551616", "-9223372036854775809"];
         for k in inner.iter() {
